@@ -140,7 +140,7 @@ def run_cases(rep: C.Report, cases, tag: str, shard: int = 4000, nfiles: int = 4
     blocks = []
     flat = []  # (case_index, chunk, oppairs)
     for ci, (h, pairs, triples) in enumerate(cases):
-        h.build()
+        h.build_staged(random.Random(7919 * ci + 13))
         allpairs = list(pairs)
         for a, b, c in triples:
             allpairs += [(a, b), (b, c), (a, c)]
